@@ -130,6 +130,19 @@ func c07build(c *Ctx, r *mon.Rand, i int) *refMsg {
 			}
 		}
 		l := gen.RandLayer(r, gen.LayerOpts{Alg: ap, MaxProt: maxProt, MaxUnprot: 3, ScramblePct: scramble, FillTo: fill})
+		if ap == nil && r.Bool() {
+			// the algorithm travels in the unprotected bucket (the protected one is empty or silent about it and
+			// external data is supplied): as conforming as any other placement
+			has := false
+			for k := 0; k+1 < len(l.Unprot.Kids); k += 2 {
+				if v, ok := l.Unprot.Kids[k].Int64(); ok && v == 1 {
+					has = true
+				}
+			}
+			if !has {
+				l.AddUnprot(int64(1), refcbor.NInt(a))
+			}
+		}
 		if r.Intn(50) == 0 {
 			// a header value with thousands of elements (unprotected, where the envelope decoder reads it)
 			l.AddUnprot(int64(99001), gen.HugeValue(r))
